@@ -240,7 +240,12 @@ class Watcher(Step):
     """a step in the layer after the step director: what it sees must be the
     hierarchy as the director's operation left it"""
     def ports_schema(self):
-        return {'agents': glob(), 'pool': glob()}
+        pool = glob()
+        if not BARE[0]:
+            # a sub-variable only this port declares, and only for the pool: every
+            # compartment in the pool must have it (generated there or moved in)
+            pool['*']['w'] = {'_default': 9, '_emit': True}
+        return {'agents': glob(), 'pool': pool}
 
     def next_update(self, timestep, states):
         LOG.append(('watcher', copy.deepcopy(states)))
@@ -347,7 +352,9 @@ def project(eng, prev_ids):
                 comp['cnt'] = {s: n.value for s, n in cstore.inner.items()}
             tree[b][k] = comp
             # identity: the compartment node and every node below it
-            sub = sorted((tuple(p), id(n)) for p, n in node.depth())
+            # (the sub-variable 'w' that the watcher declares for the children of
+            #  the pool is created when a compartment arrives there: not compared)
+            sub = sorted((tuple(p), id(n)) for p, n in node.depth() if tuple(p) != ('w',))
             ids[(b, k)] = sub
             org = 'new'
             for loc, old in prev_ids.items():
@@ -393,7 +400,14 @@ def id_paths(eng):
     return out
 
 
-def view_x(view):
+def view_x(view, extra=None):
+    if extra and not BARE[0]:
+        # the entries must also hold the extra declared sub-variable, with its default
+        if any(not (isinstance(v, dict) and v.get(extra) == 9) for k, v in view.items()
+               if k != '__none__'):
+            return {k: -888 for k in view}
+        view = {k: ({kk: vv for kk, vv in v.items() if kk != extra} if isinstance(v, dict) else v)
+                for k, v in view.items()}
     if BARE[0]:
         # one entry per child, holding nothing (no sub-variable is declared)
         return {k: (-1 if v == {} or k == '__none__' else -888) for k, v in view.items()}
@@ -480,7 +494,8 @@ def run_history(ops, initial=(), parallel=False, via_composite=False):
         rec['mode'] = op.get('mode', 'proc')
         none0 = {'__none__': -1}
         rec['zview'] = {'agents': none0, 'pool': none0} if zview is None else \
-            {'agents': view_x(zview.get('agents', none0)), 'pool': view_x(zview.get('pool', none0))}
+            {'agents': view_x(zview.get('agents', none0)),
+             'pool': view_x(zview.get('pool', none0), extra='w')}
         rec['invoked'] = sorted([list(p), n] for p, n in invoked.items())
         none = {'__none__': -1}
         rec['dview'] = {'agents': none, 'pool': none} if dview is None else \
